@@ -541,8 +541,19 @@ func (w *Writer) writeReflect(v interface{}) error {
 		return nil
 
 	default:
-		w.Write(v)
-		return nil
+		// 仅当解引用后的值是 Write 直接支持的基础类型时才回到 Write；
+		// 其他类型（int、uint、命名类型、map、chan、func、interface 等）返回错误，避免 Write 与 writeReflect 之间无限递归
+		if rv.IsValid() && rv.CanInterface() {
+			switch val := rv.Interface().(type) {
+			case byte, int8, int16, uint16, uint32, int32, uint64, int64, float32, float64, bool, string:
+				w.Write(val)
+				return w.err
+			}
+		}
+		if !rv.IsValid() {
+			return fmt.Errorf("unsupported type for writing: %T", v)
+		}
+		return fmt.Errorf("unsupported type for writing: %v", rv.Type())
 	}
 }
 
